@@ -10,6 +10,7 @@ import (
 	"sort"
 	"strings"
 	"sync"
+	"time"
 
 	"verif/internal/ev"
 )
@@ -463,6 +464,7 @@ func runC10(r *ev.Run) {
 			r.Sample(map[string]any{"params": desc, "durable_docs": len(durable), "boundaries": pts, "images": len(variants)})
 		}
 	})
+	c10AckThenCrash(r, ctl)
 	c10RealCrashes(r)
 	for p, c := range ctl.snapshotCounts() {
 		if strings.HasPrefix(p, "crash:") {
@@ -566,5 +568,125 @@ func c10RealCrashes(r *ev.Run) {
 		}
 		r.Count("real-crashes:"+point, 1)
 		r.Eval(true, ev.Digest("kill", point, ci))
+	})
+}
+
+// c10AckThenCrash: the background flush worker is held in the middle of writing a segment (at each crash:flush.* point);
+// beside it the application calls Flush(); the instant Flush returns nil the directory is copied (= the process dies
+// right after the acknowledgement). Every document added before that Flush() call must be found in the image.
+func c10AckThenCrash(r *ev.Run, ctl *hookCtl) {
+	points := []string{"crash:flush.create.hybrid", "crash:flush.create.vector", "crash:flush.written", "crash:flush.close.vector", "crash:flush.close.hybrid", "crash:flush.added", "flush.registered"}
+	reps := r.Pick(1, 5)
+	r.Cases("ack-then-crash", reps*len(points), func(ci int, rng *rand.Rand) {
+		point := points[ci%len(points)]
+		p := storeParams{VecKind: "flat", Text: true, Meta: true, Dim: 2, Metric: allMetrics[rng.IntN(3)], CompactionThreshold: 1000,
+			MemtableSizeLimit: 500, FlushThreshold: 1} // one document per memtable (the first one fits, so no empty memtable is ever frozen); every add wakes the background flush worker
+		dir, err := os.MkdirTemp("", "verif-c10a-*")
+		if err != nil {
+			panic(err)
+		}
+		defer os.RemoveAll(dir)
+		rep := func(sig, what string, extra map[string]any) {
+			w := map[string]any{"point": point, "params": p.String()}
+			for k, v := range extra {
+				w[k] = v
+			}
+			r.ViolationAt("ack-then-crash", ci, sig, fmt.Sprintf("worker held at %s: %s", point, what), w)
+		}
+		s, err := p.open(dir)
+		if err != nil {
+			rep("crash.open-error", err.Error(), nil)
+			return
+		}
+		var mu sync.Mutex
+		acked := map[uint32]bool{}
+		ever := map[uint32]bool{}
+		var owed map[uint32]bool
+		var img dirImage
+		var flushErr error
+		taken := make(chan struct{})
+		var once sync.Once
+		ctl.setTarget(point, 1, func(args []any) {
+			_, done := runBeside(func() {
+				mu.Lock()
+				owed = map[uint32]bool{}
+				for id := range acked {
+					owed[id] = true
+				}
+				mu.Unlock()
+				flushErr = s.Flush()
+				if flushErr == nil {
+					img, _ = readImage(dir)
+				}
+				once.Do(func() { close(taken) })
+			}, 2*time.Second)
+			_ = done
+		})
+		base := uint32(1<<29 + ci<<8)
+		for i := 0; i < 4; i++ {
+			d := genStoreDoc(rng, p, base+uint32(i), "a")
+			mu.Lock()
+			ever[d.ID] = true
+			mu.Unlock()
+			if err := s.AddWithID(d.ID, d.Vec, d.Text, d.Meta); err != nil {
+				rep("crash.add-error", err.Error(), nil)
+				break
+			}
+			mu.Lock()
+			acked[d.ID] = true
+			mu.Unlock()
+			for k := 0; k < 200 && !ctl.fired(); k++ { // give the worker a chance to reach the point (no verdict depends on it)
+				time.Sleep(100 * time.Microsecond)
+			}
+		}
+		select {
+		case <-taken:
+		case <-time.After(30 * time.Second):
+		}
+		fired := ctl.fired()
+		ctl.clearTarget()
+		s.Close()
+		if !fired || img == nil {
+			if flushErr != nil {
+				rep("crash.flush-error", "Flush beside the held worker failed: "+flushErr.Error(), nil)
+				return
+			}
+			if r.Verbose() || os.Getenv("VERIF_DEBUG") != "" {
+				fmt.Printf("DEBUG ack-then-crash %s fired=%v img=%v flushErr=%v counts=%v\n", point, fired, img != nil, flushErr, ctl.snapshotCounts())
+			}
+			r.Count("ack-then-crash:point-not-reached-by-the-worker", 1)
+			r.Inconclusive("background worker did not reach " + point)
+			return
+		}
+		idir, err := os.MkdirTemp("", "verif-c10aimg-*")
+		if err != nil {
+			panic(err)
+		}
+		defer os.RemoveAll(idir)
+		img.materialise(idir)
+		files := map[string]int{}
+		for n, b := range img {
+			files[n] = len(b)
+		}
+		rs, err := p.open(idir)
+		if err != nil {
+			rep("crash.reopen-fails", "Open failed on the image taken right after Flush returned nil: "+err.Error(), map[string]any{"image_files(bytes)": files})
+			return
+		}
+		defer rs.Close()
+		a := searchAllModalities(rs, p)
+		if a.Err != nil {
+			rep("crash.search-fails", a.Err.Error(), map[string]any{"image_files(bytes)": files})
+			return
+		}
+		missing, foreign := a.check(owed, ever)
+		if len(foreign) > 0 {
+			rep("crash.never-added-id-returned", fmt.Sprint(foreign), nil)
+		}
+		if len(missing) > 0 {
+			rep("crash.acknowledged-by-flush-but-lost", fmt.Sprintf("Flush() returned nil while the background worker was still writing; a crash right after it loses %v (owed %d documents)", missing, len(owed)), map[string]any{"image_files(bytes)": files})
+		}
+		r.Count("ack-then-crash:"+point, 1)
+		r.Eval(len(owed) > 0, ev.Digest("ack", point, ci))
 	})
 }
